@@ -1,6 +1,15 @@
 //! probe: prints tokens, listing and parse result of each argument line (maintenance helper).
 use basic::lang::Line;
 fn main() {
+    if std::env::var("PROBE_THREAD").is_ok() {
+        // default thread stack (2 MiB) instead of the main thread's
+        std::thread::spawn(run).join().unwrap();
+    } else {
+        run();
+    }
+}
+
+fn run() {
     for s in std::env::args().skip(1) {
         let (n, toks) = basic::lang::lex(&s);
         println!("source {:?}\n  number {:?}\n  tokens {:?}", s, n, toks);
@@ -13,5 +22,11 @@ fn main() {
         }
         let l2 = Line::new(&t1);
         println!("  relisted {:?}", l2.to_string());
+        // and through the runtime
+        let mut term = verif_check::drive::Term::new();
+        let mut o = verif_check::drive::Opts::default();
+        term.line(&s, &mut o);
+        let out = verif_check::drive::flat(&term.take());
+        println!("  entered: {:?}", &out[..out.len().min(200)]);
     }
 }
